@@ -260,10 +260,12 @@ class Server:
             # once the workers are gone this thread would block on a full pipe.
             self._input_buffer.put(None)
             self._onboard_thread.join()
-        self.servlet.stop()
-        self._q_out.put(_GATHER_STOP)
-        self._gather_thread.join()
-        self._uid_to_futures.clear()
+        try:
+            self.servlet.stop()  # raises if a worker has died of an error
+        finally:
+            self._q_out.put(_GATHER_STOP)
+            self._gather_thread.join()
+            self._uid_to_futures.clear()
 
     def call(self, x, /, *, timeout: int | float = 60, backpressure: bool = True):
         """
@@ -554,10 +556,12 @@ class AsyncServer:
             # See `Server.__exit__`.
             self._input_buffer.put(None)
             self._onboard_thread.join()
-        self.servlet.stop()
-        self._q_out.put(_GATHER_STOP)
-        self._gather_thread.join()
-        self._uid_to_futures.clear()
+        try:
+            self.servlet.stop()  # raises if a worker has died of an error
+        finally:
+            self._q_out.put(_GATHER_STOP)
+            self._gather_thread.join()
+            self._uid_to_futures.clear()
 
         pipenotfull = self._pipeline_notfull
         notifs = self._pipeline_notfull_notifications
